@@ -444,11 +444,14 @@ export class SchemaPrintingContext {
     // tables keyed by type names: a type may be called "constructor", "valueOf" or "__proto__"
     this.collectedDefinitions = Object.create(null);
     this.inProgressDefinitions = Object.create(null);
-    this.namedTypeSchemaOverrides = Object.fromEntries(
-      Object.entries(options.namedTypeSchemaOverrides ?? {}).map(([name, parser]) => [
-        name,
-        (parser as ParserFromRuntype)._runtype,
-      ]),
+    this.namedTypeSchemaOverrides = Object.assign(
+      Object.create(null),
+      Object.fromEntries(
+        Object.entries(options.namedTypeSchemaOverrides ?? {}).map(([name, parser]) => [
+          name,
+          (parser as ParserFromRuntype)._runtype,
+        ]),
+      ),
     );
   }
 
